@@ -94,6 +94,16 @@ def build_cases(tier):
             cases.append((o, cfg, "none"))
             if cfg["opentelemetry_client"] and cfg["convert_to_snake_case"]:
                 cases.append((o, cfg, "noop"))
+    # fragment graphs on one type: every 3-fragment DAG x every assignment of names (alphabetical order vs dependency order) x the selection
+    # set spreading fragment 1 alone or any subset of the fragments side by side (base-class ordering of the result class)
+    from mc import corpus2
+    import itertools
+    for names in itertools.permutations(("Alpha", "Beta", "Gamma")):
+        for g in corpus2.fragment_graphs(3, ("User",), nested_variants=(False,), names=names, subsets=True):
+            if "root:one" not in g["tags"] and "root:subset" not in g["tags"]:
+                continue
+            o = corpus.Op(g["ops"][0], g["doc_text"].split("\n")[0], g["doc_text"], {"family:fragment_graph", f"names:{'<'.join(names)}"} | set(g["tags"]), False, set(), "user")
+            cases.append((o, {}, "none"))
     # configured custom scalar (pydantic-native type, and type + parse function) at every result position incl. nullable list items
     for o in single_ops + wops:
         if "blob" in o.text or "wkind:blb" in o.tags or "FCamel" in o.text:
